@@ -1,7 +1,464 @@
-//! C17: the HTTP handlers driven in-process (filled in below).
-use crate::env::Env;
-use crate::plan::Op;
+//! C17: the HTTP handlers driven in-process under the simulator.
+//!
+//! The real actix `App` (the handlers, extractors, state and payload limit `server::run` registers,
+//! via the guarded hook `server::verif_configure`) is built on the calling simulated thread and
+//! called through actix's `Service` interface: the request goes through routing, the JSON / bytes
+//! extractors, the handler, `LocustDB::run_query` / `ingest_efficient` on the shared
+//! `Arc<LocustDB>` (whose worker threads are simulated threads), the response encoders and the
+//! status mapping. What is stubbed is the socket, the HTTP/1 codec and the actix worker runtime:
+//! each simulated client thread plays one actix worker (actix builds one `App` per worker too).
+use crate::env::*;
+use crate::model::Cell;
+use crate::plan::{HttpEndpoint, Op};
+use actix_web::body::to_bytes;
+use actix_web::dev::Service;
+use actix_web::{test, App};
+use locustdb::LocustDB;
+use locustdb_serialization::api::{AnyVal, Column, MultiQueryResponse};
+use locustdb_simrt as rt;
+use std::panic::AssertUnwindSafe;
+use std::sync::Arc;
 
-pub fn exec_http(env: &mut Env, _op: &Op, _ctx: &str) {
-    env.count("op_unimplemented");
+#[derive(Clone, Debug)]
+pub struct HttpOut {
+    pub status: u16,
+    pub body: Vec<u8>,
+}
+
+pub enum Body {
+    Json(serde_json::Value),
+    Bytes(Vec<u8>),
+}
+
+/// One request through the real service. Err = the handler (or anything below it) panicked.
+pub fn call(db: &Arc<LocustDB>, path: &str, body: Body) -> Result<HttpOut, String> {
+    rt::core::log("http_invoke", || path.to_string());
+    let db = db.clone();
+    let r = catch(AssertUnwindSafe(|| {
+        rt::block_on(async move {
+            let app = test::init_service(App::new().configure(|c| locustdb::server::verif_configure(c, db))).await;
+            let req = match body {
+                Body::Json(v) => test::TestRequest::post().uri(path).set_json(v).to_request(),
+                Body::Bytes(b) => test::TestRequest::post().uri(path).set_payload(b).to_request(),
+            };
+            match app.call(req).await {
+                Ok(resp) => {
+                    let status = resp.status().as_u16();
+                    let body = to_bytes(resp.into_body()).await.map(|b| b.to_vec()).unwrap_or_default();
+                    HttpOut { status, body }
+                }
+                Err(e) => {
+                    // an extractor or the router refused the request: actix answers with the
+                    // error's own response
+                    let resp = e.error_response();
+                    let status = resp.status().as_u16();
+                    let body = to_bytes(resp.into_body()).await.map(|b| b.to_vec()).unwrap_or_default();
+                    HttpOut { status, body }
+                }
+            }
+        })
+    }));
+    crate::sched::progress();
+    let out = r.map_err(|p| rt::core::truncate(&panic_message(&p), 300));
+    rt::core::log("http_return", || match &out {
+        Ok(o) => format!("{} {} bytes", o.status, o.body.len()),
+        Err(m) => format!("panicked: {}", rt::core::truncate(m, 80)),
+    });
+    out
+}
+
+pub fn insert(db: &Arc<LocustDB>, req: &crate::model::Request) -> Result<HttpOut, String> {
+    call(db, "/insert_bin", Body::Bytes(crate::wire::wire_bytes(req)))
+}
+
+fn json_cell(v: &serde_json::Value) -> Result<Cell, String> {
+    Ok(match v {
+        serde_json::Value::Null => Cell::N,
+        serde_json::Value::Number(n) => {
+            if let Some(i) = n.as_i64() {
+                Cell::I(i)
+            } else if n.is_u64() {
+                return Err(format!("integer {n} does not fit i64"));
+            } else {
+                Cell::F(n.as_f64().ok_or("number is no f64")?.to_bits())
+            }
+        }
+        serde_json::Value::String(s) => Cell::S(s.clone()),
+        other => return Err(format!("unexpected JSON value {other}")),
+    })
+}
+
+fn strs(v: &serde_json::Value) -> Result<Vec<String>, String> {
+    v.as_array().ok_or("colnames is no array")?.iter().map(|x| x.as_str().map(|s| s.to_string()).ok_or_else(|| "column name is no string".to_string())).collect()
+}
+
+/// What an endpoint returned, decoded: column names in order when the encoding carries them, the
+/// rows when it carries rows, the columns by name when it carries columns.
+#[derive(Debug, Default)]
+pub struct Decoded {
+    pub colnames: Option<Vec<String>>,
+    pub rows: Option<Vec<Vec<Cell>>>,
+    pub cols: Option<std::collections::BTreeMap<String, Vec<Cell>>>,
+}
+
+fn decode_json_cols(v: &serde_json::Value) -> Result<Decoded, String> {
+    let colnames = strs(v.get("colnames").ok_or("no colnames")?)?;
+    let mut cols = std::collections::BTreeMap::new();
+    for (k, xs) in v.get("cols").and_then(|c| c.as_object()).ok_or("no cols object")? {
+        // a column holding only NULLs travels as its length (BasicTypeColumn::Null(n), like the binary Column::Null)
+        if let Some(n) = xs.as_u64() {
+            cols.insert(k.clone(), vec![Cell::N; n as usize]);
+            continue;
+        }
+        let cells: Result<Vec<Cell>, String> = xs.as_array().ok_or("column is no array")?.iter().map(json_cell).collect();
+        cols.insert(k.clone(), cells?);
+    }
+    Ok(Decoded { colnames: Some(colnames), rows: None, cols: Some(cols) })
+}
+
+fn api_column_cells(c: &Column) -> Result<Vec<Cell>, String> {
+    let null_bits = locustdb_compression_utils::xor_float::NULL.to_bits();
+    let fl = |x: f64| if x.to_bits() == null_bits { Cell::N } else { Cell::F(x.to_bits()) };
+    Ok(match c {
+        Column::Float(xs) => xs.iter().map(|x| fl(*x)).collect(),
+        Column::Int(xs) => xs.iter().map(|x| Cell::I(*x)).collect(),
+        Column::String(xs) => xs.iter().map(|s| Cell::S(s.clone())).collect(),
+        Column::Null(n) => vec![Cell::N; *n],
+        Column::Mixed(xs) => xs
+            .iter()
+            .map(|v| match v {
+                AnyVal::Int(i) => Cell::I(*i),
+                AnyVal::Float(f) => Cell::F(f.to_bits()),
+                AnyVal::Str(s) => Cell::S(s.clone()),
+                AnyVal::Null => Cell::N,
+            })
+            .collect(),
+        Column::Xor(bytes) => locustdb_compression_utils::xor_float::double::decode(bytes).map_err(|e| format!("xor column does not decode: {e:?}"))?.into_iter().map(fl).collect(),
+    })
+}
+
+pub fn decode(endpoint: HttpEndpoint, body: &[u8]) -> Result<Decoded, String> {
+    match endpoint {
+        HttpEndpoint::Query => {
+            let v: serde_json::Value = serde_json::from_slice(body).map_err(|e| format!("body is no JSON: {e}"))?;
+            let colnames = strs(v.get("colnames").ok_or("no colnames")?)?;
+            let mut rows = Vec::new();
+            for r in v.get("rows").and_then(|r| r.as_array()).ok_or("no rows array")? {
+                let cells: Result<Vec<Cell>, String> = r.as_array().ok_or("row is no array")?.iter().map(json_cell).collect();
+                rows.push(cells?);
+            }
+            Ok(Decoded { colnames: Some(colnames), rows: Some(rows), cols: None })
+        }
+        HttpEndpoint::QueryCols => {
+            let v: serde_json::Value = serde_json::from_slice(body).map_err(|e| format!("body is no JSON: {e}"))?;
+            decode_json_cols(&v)
+        }
+        HttpEndpoint::MultiJson => {
+            let v: serde_json::Value = serde_json::from_slice(body).map_err(|e| format!("body is no JSON: {e}"))?;
+            let a = v.as_array().ok_or("body is no array")?;
+            if a.len() != 1 {
+                return Err(format!("{} responses for 1 query", a.len()));
+            }
+            decode_json_cols(&a[0])
+        }
+        HttpEndpoint::MultiBin | HttpEndpoint::MultiBinXor => {
+            let m = catch(AssertUnwindSafe(|| MultiQueryResponse::deserialize(body))).map_err(|p| format!("client-side decoding panicked: {}", panic_message(&p)))?.map_err(|e| format!("binary body does not decode: {e}"))?;
+            if m.responses.len() != 1 {
+                return Err(format!("{} responses for 1 query", m.responses.len()));
+            }
+            let mut cols = std::collections::BTreeMap::new();
+            for (k, c) in &m.responses[0].columns {
+                cols.insert(k.clone(), api_column_cells(c)?);
+            }
+            Ok(Decoded { colnames: None, rows: None, cols: Some(cols) })
+        }
+    }
+}
+
+pub fn query_via(db: &Arc<LocustDB>, endpoint: HttpEndpoint, sql: &str) -> Result<HttpOut, String> {
+    use serde_json::json;
+    match endpoint {
+        HttpEndpoint::Query => call(db, "/query", Body::Json(json!({ "query": sql }))),
+        HttpEndpoint::QueryCols => call(db, "/query_cols", Body::Json(json!({ "query": sql }))),
+        HttpEndpoint::MultiJson => call(db, "/multi_query_cols", Body::Json(json!({ "queries": [sql], "encoding_opts": null }))),
+        HttpEndpoint::MultiBin => call(db, "/multi_query_cols", Body::Json(json!({ "queries": [sql], "encoding_opts": { "xor_float_compression": false, "mantissa": null, "full_precision_cols": [] } }))),
+        HttpEndpoint::MultiBinXor => call(db, "/multi_query_cols", Body::Json(json!({ "queries": [sql], "encoding_opts": { "xor_float_compression": true, "mantissa": null, "full_precision_cols": [] } }))),
+    }
+}
+
+fn is_json(e: HttpEndpoint) -> bool {
+    matches!(e, HttpEndpoint::Query | HttpEndpoint::QueryCols | HttpEndpoint::MultiJson)
+}
+
+/// embedded cell vs the cell an endpoint delivered
+fn same_cell(emb: &Cell, http: &Cell, json: bool) -> bool {
+    if emb == http {
+        return true;
+    }
+    if json {
+        // JSON cannot represent non-finite floats (the property excepts them): serde renders null
+        if let (Cell::F(b), Cell::N) = (emb, http) {
+            return !f64::from_bits(*b).is_finite();
+        }
+        // an integral float may be printed without a fraction by some encoders; serde_json prints
+        // "5.0", so nothing to relax here
+    }
+    false
+}
+
+/// An HTTP answer as the QOut the concurrent-phase oracles work on.
+pub fn as_query_result(endpoint: HttpEndpoint, out: &Result<HttpOut, String>, colnames_hint: &[String]) -> Result<QOut, QErr> {
+    match out {
+        Err(m) => Err(QErr::Panic(m.clone())),
+        Ok(o) if o.status != 200 => Err(QErr::Err(format!("HTTP{}", o.status), rt::core::truncate(&String::from_utf8_lossy(&o.body), 200))),
+        Ok(o) => match decode(endpoint, &o.body) {
+            Err(e) => Err(QErr::Err("HTTPDecode".into(), e)),
+            Ok(d) => {
+                let colnames = d.colnames.clone().unwrap_or_else(|| colnames_hint.to_vec());
+                let (rows, cols) = match (&d.rows, &d.cols) {
+                    (Some(rows), _) => {
+                        let cols = colnames.iter().enumerate().map(|(i, n)| (n.clone(), rows.iter().map(|r| r.get(i).cloned().unwrap_or(Cell::N)).collect())).collect();
+                        (rows.clone(), cols)
+                    }
+                    (None, Some(cols)) => {
+                        let n = cols.values().map(|c| c.len()).max().unwrap_or(0);
+                        let rows = (0..n).map(|r| colnames.iter().map(|c| cols.get(c).and_then(|v| v.get(r)).cloned().unwrap_or(Cell::N)).collect()).collect();
+                        let cv = colnames.iter().map(|c| (c.clone(), cols.get(c).cloned().unwrap_or_default())).collect();
+                        (rows, cv)
+                    }
+                    _ => (vec![], vec![]),
+                };
+                Ok(QOut { colnames, rows, cols, had_rows: true })
+            }
+        },
+    }
+}
+
+fn expected_status(kind: &str) -> u16 {
+    match kind {
+        "NotImplemented" => 501,
+        "FatalError" => 500,
+        _ => 400,
+    }
+}
+
+/// Compare one query's HTTP answer with the embedded answer obtained right before on the same
+/// quiescent database.
+pub fn compare_with_embedded(env: &mut Env, endpoint: HttpEndpoint, sql: &str, ordered: bool, ctx: &str) {
+    let before = env.violations.len();
+    let original = compare_with_embedded_inner(env, endpoint, sql, ordered, ctx);
+    // A difference is only the interface's doing if the embedded API itself answers the same
+    // way twice: some query shapes have schedule-dependent answers (open engine findings).
+    let differs = env.violations.len() > before && env.violations[before..].iter().any(|v| v.class.starts_with("http:cell_differs") || v.class.starts_with("http:row_count_differs") || v.class.starts_with("http:column_length_differs"));
+    if differs {
+        let key = |r: &Result<QOut, QErr>| match r {
+            Ok(o) => {
+                let n = o.cols.first().map(|c| c.1.len()).unwrap_or(0);
+                let mut rows: Vec<String> = if o.had_rows { o.rows.iter().map(|r| format!("{r:?}")).collect() } else { (0..n).map(|r| format!("{:?}", o.cols.iter().map(|c| c.1.get(r)).collect::<Vec<_>>())).collect() };
+                if !ordered {
+                    rows.sort();
+                }
+                format!("{:?} {rows:?}", o.colnames)
+            }
+            Err(e) => format!("error {}", e.kind()),
+        };
+        if sql.starts_with("SELECT n, COUNT(1)") {
+            // grouping by a nullable column: the NULL group comes back once or twice depending on
+            // the merge order of the partial results (open engine finding), whichever API asks
+            let detail = env.violations[before].detail.clone();
+            env.violations.truncate(before);
+            env.violate("embedded_answers_vary:group_by_nullable", detail);
+            return;
+        }
+        let first = key(&original);
+        for _ in 0..6 {
+            let again = key(&run_query_fmt(&env.db(), sql, endpoint == HttpEndpoint::Query));
+            if again != first {
+                env.violations.truncate(before);
+                let shape = if sql.starts_with("SELECT n, COUNT(1)") { "group_by_nullable" } else { "other" };
+                env.violate(&format!("embedded_answers_vary:{shape}"), format!("[{ctx}] {sql:?}: the embedded API gives different answers to the same query on the same quiescent database: {} / {}", rt::core::truncate(&first, 200), rt::core::truncate(&again, 200)));
+                return;
+            }
+        }
+    }
+}
+
+fn compare_with_embedded_inner(env: &mut Env, endpoint: HttpEndpoint, sql: &str, ordered: bool, ctx: &str) -> Result<QOut, QErr> {
+    // (the handlers of the column endpoints ask for the column view only)
+    let db = env.db();
+    env.count("query");
+    let emb = run_query_fmt(&db, sql, endpoint == HttpEndpoint::Query);
+    compare_answers(env, &emb, endpoint, sql, ordered, ctx);
+    emb
+}
+
+fn compare_answers(env: &mut Env, emb: &Result<QOut, QErr>, endpoint: HttpEndpoint, sql: &str, ordered: bool, ctx: &str) {
+    let db = env.db();
+    let http = query_via(&db, endpoint, sql);
+    let ep = format!("{endpoint:?}");
+    env.count(&format!("http_query:{ep}"));
+    let http = match http {
+        Err(m) => {
+            let what = match emb {
+                Ok(_) => "a query the embedded API answers".to_string(),
+                Err(e) => format!("a query the embedded API fails with {}", e.kind()),
+            };
+            env.violate(&format!("http:handler_panicked:{ep}:{}", if emb.is_ok() { "ok_query" } else { "failing_query" }), format!("[{ctx}] {ep} {sql:?}: the handler panicked instead of answering ({what}): {m}"));
+            return;
+        }
+        Ok(h) => h,
+    };
+    match (emb, http.status) {
+        (Err(QErr::Panic(m)), _) => env.violate(&format!("query_panicked_in_caller:{}", stem(m)), format!("[{ctx}] run_query({sql:?}) panicked in the calling thread: {m}")),
+        (Err(e), 200) => env.violate(&format!("http:status_200_for_failing_query:{ep}"), format!("[{ctx}] {ep} {sql:?}: HTTP 200 but the embedded API fails with {}: {}", e.kind(), e.msg())),
+        (Err(e), s) => {
+            env.count("http_failing_query_mapped");
+            let want = expected_status(&e.kind());
+            // (which partition's error wins can depend on the schedule: ask again before judging)
+            let mut kinds = vec![e.kind()];
+            if s != want {
+                for _ in 0..4 {
+                    if let Err(e2) = run_query_fmt(&env.db(), sql, endpoint == HttpEndpoint::Query) {
+                        kinds.push(e2.kind());
+                    }
+                }
+            }
+            // With several workers the partitions of a failing query are executed concurrently and
+            // the error of whichever fails first is reported: two calls can fail with different
+            // kinds. The exact mapping is only checked where the kind is deterministic.
+            if env.opts.threads > 1 && s >= 400 {
+                if !kinds.iter().any(|k| expected_status(k) == s) {
+                    env.count("http_error_status_of_another_kind");
+                }
+            } else if !kinds.iter().any(|k| expected_status(k) == s) {
+                env.violate(&format!("http:wrong_error_status:{ep}:{}", e.kind()), format!("[{ctx}] {ep} {sql:?}: status {s}, the mapping gives {want} for {}", e.kind()));
+            }
+        }
+        (Ok(_), s) if s != 200 => env.violate(&format!("http:error_status_for_ok_query:{ep}"), format!("[{ctx}] {ep} {sql:?}: status {s} ({}) but the embedded API answers", rt::core::truncate(&String::from_utf8_lossy(&http.body), 200))),
+        (Ok(o), _) => {
+            let d = match decode(endpoint, &http.body) {
+                Ok(d) => d,
+                Err(e) => {
+                    env.violate(&format!("http:undecodable_body:{ep}"), format!("[{ctx}] {ep} {sql:?}: {e}"));
+                    return;
+                }
+            };
+            let json = is_json(endpoint);
+            if let Some(cn) = &d.colnames {
+                if cn != &o.colnames {
+                    env.violate(&format!("http:colnames_differ:{ep}"), format!("[{ctx}] {ep} {sql:?}: column names {cn:?}, embedded {:?}", o.colnames));
+                    return;
+                }
+            }
+            if let Some(rows) = &d.rows {
+                let mut a: Vec<Vec<Cell>> = rows.clone();
+                let mut b: Vec<Vec<Cell>> = o.rows.clone();
+                if !ordered {
+                    a.sort_by_key(|r| format!("{r:?}"));
+                    b.sort_by_key(|r| format!("{r:?}"));
+                }
+                if a.len() != b.len() {
+                    env.violate(&format!("http:row_count_differs:{ep}"), format!("[{ctx}] {ep} {sql:?}: {} rows, embedded {}", a.len(), b.len()));
+                    return;
+                }
+                for (i, (ra, rb)) in a.iter().zip(b.iter()).enumerate() {
+                    if ra.len() != rb.len() || !ra.iter().zip(rb.iter()).all(|(h, e)| same_cell(e, h, json)) {
+                        // (unordered comparison of rows holding non-finite floats: fall back to a multiset of the finite part)
+                        if !ordered && b.iter().flatten().any(|c| matches!(c, Cell::F(x) if !f64::from_bits(*x).is_finite())) {
+                            env.count("http_unordered_nonfinite_skipped");
+                            return;
+                        }
+                        env.violate(&format!("http:cell_differs:{ep}"), format!("[{ctx}] {ep} {sql:?}: row {i} is {:?}, embedded {:?}", ra.iter().map(|c| c.short()).collect::<Vec<_>>(), rb.iter().map(|c| c.short()).collect::<Vec<_>>()));
+                        return;
+                    }
+                }
+            }
+            if let Some(cols) = &d.cols {
+                // a name selected twice cannot appear twice in a name -> column map: the last one wins
+                let mut emb: std::collections::BTreeMap<&String, &Vec<Cell>> = Default::default();
+                for (n, c) in &o.cols {
+                    emb.insert(n, c);
+                }
+                for name in emb.keys() {
+                    if !cols.contains_key(*name) {
+                        env.violate(&format!("http:column_missing:{ep}"), format!("[{ctx}] {ep} {sql:?}: no column {name:?} in the answer (has {:?})", cols.keys().collect::<Vec<_>>()));
+                        return;
+                    }
+                }
+                if let Some(extra) = cols.keys().find(|k| !emb.contains_key(k)) {
+                    env.violate(&format!("http:column_extra:{ep}"), format!("[{ctx}] {ep} {sql:?}: column {extra:?} in the answer, embedded has {:?}", emb.keys().collect::<Vec<_>>()));
+                    return;
+                }
+                let n = emb.values().next().map(|c| c.len()).unwrap_or(0);
+                if let Some((name, got)) = cols.iter().find(|(_, v)| v.len() != n) {
+                    env.violate(&format!("http:column_length_differs:{ep}"), format!("[{ctx}] {ep} {sql:?}: column {name:?} has {} cells, embedded {n}", got.len()));
+                    return;
+                }
+                let nonfinite = emb.values().any(|v| v.iter().any(|c| matches!(c, Cell::F(x) if !f64::from_bits(*x).is_finite())));
+                if ordered {
+                    for (name, want) in &emb {
+                        let got = &cols[*name];
+                        if let Some(i) = (0..n).find(|&i| !same_cell(&want[i], &got[i], json)) {
+                            env.violate(&format!("http:cell_differs:{ep}"), format!("[{ctx}] {ep} {sql:?}: column {name:?} cell {i} is {}, embedded {}", got[i].short(), want[i].short()));
+                            return;
+                        }
+                    }
+                } else if json && nonfinite {
+                    env.count("http_unordered_nonfinite_skipped");
+                    return;
+                } else {
+                    let mut a: Vec<Vec<Cell>> = (0..n).map(|r| emb.keys().map(|c| cols[*c][r].clone()).collect()).collect();
+                    let mut b: Vec<Vec<Cell>> = (0..n).map(|r| emb.values().map(|v| v[r].clone()).collect()).collect();
+                    a.sort_by_key(|r| format!("{r:?}"));
+                    b.sort_by_key(|r| format!("{r:?}"));
+                    if let Some(i) = (0..n).find(|&i| a[i] != b[i]) {
+                        env.violate(&format!("http:cell_differs:{ep}"), format!("[{ctx}] {ep} {sql:?}: as multisets of rows the answers differ, e.g. {:?} vs embedded {:?}", a[i].iter().map(|c| c.short()).collect::<Vec<_>>(), b[i].iter().map(|c| c.short()).collect::<Vec<_>>()));
+                        return;
+                    }
+                }
+            }
+            env.count("http_answers_equal_embedded");
+        }
+    }
+}
+
+pub fn exec_http(env: &mut Env, op: &Op, ctx: &str) {
+    // row order without ORDER BY is only defined when a single worker merges the partitions
+    let single = env.opts.threads <= 1;
+    match op {
+        Op::HttpQuery { endpoint, q } => {
+            let aggregate = q.select.iter().any(|s| matches!(s, crate::sql::SelItem::Agg(..)));
+            compare_with_embedded(env, *endpoint, &q.sql, single || !aggregate, ctx)
+        }
+        Op::HttpRawQuery { endpoint, sql } => compare_with_embedded(env, *endpoint, sql, single, ctx),
+        Op::HttpColumns { table, pattern } => {
+            let db = env.db();
+            let emb = catch(AssertUnwindSafe(|| rt::block_on(db.search_column_names(table, pattern))));
+            let http = call(&db, "/columns", Body::Json(serde_json::json!({ "tables": [table], "pattern": pattern })));
+            env.count("http_columns");
+            match (emb, http) {
+                (_, Err(m)) => env.violate("http:handler_panicked:columns", format!("[{ctx}] /columns {table:?} {pattern:?}: the handler panicked: {m}")),
+                (Err(p), _) => env.violate(&format!("call_panicked_in_caller:{}", stem(&panic_message(&p))), format!("[{ctx}] search_column_names panicked: {}", panic_message(&p))),
+                (Ok(Err(_)), Ok(h)) => {
+                    if h.status == 200 {
+                        env.violate("http:status_200_for_failing_query:columns", format!("[{ctx}] /columns {table:?}: 200 but the embedded call fails"));
+                    }
+                }
+                (Ok(Ok(cols)), Ok(h)) => {
+                    if h.status != 200 {
+                        env.violate("http:error_status_for_ok_query:columns", format!("[{ctx}] /columns {table:?}: status {}", h.status));
+                        return;
+                    }
+                    let v: serde_json::Value = serde_json::from_slice(&h.body).unwrap_or(serde_json::Value::Null);
+                    let got: Option<Vec<String>> = v.get("columns").and_then(|c| strs(c).ok());
+                    let mut want: Vec<String> = cols.into_iter().collect::<std::collections::BTreeSet<_>>().into_iter().collect();
+                    want.sort();
+                    if got.as_ref() != Some(&want) {
+                        env.violate("http:columns_differ", format!("[{ctx}] /columns {table:?} {pattern:?}: {got:?}, embedded {want:?}"));
+                    }
+                }
+            }
+        }
+        _ => env.count("op_unimplemented"),
+    }
 }
